@@ -115,6 +115,27 @@ type StoreWorld struct {
 	onCommit func(Commit)
 }
 
+// eventTriggers lets harness tasks react to named harness events (a probe finished reading, a reconcile returned).
+type eventTriggers struct{ waiting map[string][]chan struct{} }
+
+func newEventTriggers() *eventTriggers { return &eventTriggers{waiting: map[string][]chan struct{}{}} }
+
+func (et *eventTriggers) fire(name string) {
+	if et == nil || len(et.waiting[name]) == 0 {
+		return
+	}
+	for _, ch := range et.waiting[name] {
+		close(ch)
+	}
+	delete(et.waiting, name)
+}
+
+func (et *eventTriggers) wait(ctx context.Context, name string) bool {
+	ch := make(chan struct{})
+	et.waiting[name] = append(et.waiting[name], ch)
+	return simrt.Select("event.wait", false, simrt.Recv[struct{}](ch), simrt.Recv(ctx.Done())) == 0
+}
+
 // commitTriggers lets harness tasks react to commits: "place the fault right after the event that opens the window". The
 // tap calls fire in the committing task (no scheduling point); waiters are woken and compete with that task's next step.
 type commitTriggers struct {
